@@ -109,11 +109,15 @@ type parkedTask struct {
 	cond     func() bool
 	ctx      context.Context
 	lockWait bool
+	inDriver bool // parked inside a database/sql driver call: ends by itself when its context is cancelled
 	kinds    []FaultKind
 	epoch    int
 }
 
 type World struct {
+	realSQL        bool   // data methods of storage/ledger run for real over the SQL interpreter (sqlmini)
+	sqlUnsupported string // first statement the interpreter could not handle (the run is then inconclusive)
+	sqlUnsupportedTaint string
 	lenientReads bool        // see unmodelled
 	sites        [][3]string // (task, store call, fault fired or "") for every step at a yield that admits faults
 	mu           sync.Mutex
@@ -183,6 +187,12 @@ func NewWorld() *World {
 	}
 	w.db = NewDB(&w.eventCtr)
 	w.db.chooseVictim = w.chooseVictim
+	w.db.onTaintedCommit = func(reason string) {
+		// called with db.mu held, from the task that commits
+		if w.sqlUnsupportedTaint == "" {
+			w.sqlUnsupportedTaint = "committed state the simulation cannot represent: " + reason
+		}
+	}
 	return w
 }
 
@@ -273,7 +283,19 @@ func (w *World) parkLockWait(ctx context.Context, s *Session, what string) *Faul
 	return w.park(ctx, "lockwait", what, s.canProceed, true, nil)
 }
 
+// parkInDriver: a yield point inside a driver call. database/sql holds the connection's and the
+// transaction's mutexes during the call, and sql.Tx.awaitDone needs them to roll back when the context is
+// cancelled; a goroutine waiting for a sync.Mutex is not durably blocked, so the scheduler could never run
+// again. Like a real driver, the parked statement therefore ends by itself when its context is cancelled.
+func (w *World) parkInDriver(ctx context.Context, op, note string, kinds []FaultKind) *Fault {
+	return w.parkX(ctx, op, note, nil, false, true, kinds)
+}
+
 func (w *World) park(ctx context.Context, op, note string, cond func() bool, lockWait bool, kinds []FaultKind) *Fault {
+	return w.parkX(ctx, op, note, cond, lockWait, false, kinds)
+}
+
+func (w *World) parkX(ctx context.Context, op, note string, cond func() bool, lockWait, inDriver bool, kinds []FaultKind) *Fault {
 	w.mu.Lock()
 	if !w.scheduling {
 		w.mu.Unlock()
@@ -288,7 +310,7 @@ func (w *World) park(ctx context.Context, op, note string, cond func() bool, loc
 	if !lockWait {
 		w.yieldCount[key] = n + 1
 	}
-	p := &parkedTask{key: key, op: op, note: note, n: n, wake: make(chan *Fault, 1), cond: cond, ctx: ctx, lockWait: lockWait, kinds: kinds, epoch: w.epoch}
+	p := &parkedTask{key: key, op: op, note: note, n: n, wake: make(chan *Fault, 1), cond: cond, ctx: ctx, lockWait: lockWait, inDriver: inDriver, kinds: kinds, epoch: w.epoch}
 	if old, dup := w.parked[key]; dup {
 		if w.harness == nil {
 			w.harness = fmt.Errorf("duplicate task key %q parked at %s and %s", key, old.op, op)
@@ -298,6 +320,19 @@ func (w *World) park(ctx context.Context, op, note string, cond func() bool, loc
 	}
 	w.parked[key] = p
 	w.mu.Unlock()
+	if inDriver {
+		select {
+		case f := <-p.wake:
+			return f
+		case <-ctx.Done():
+			w.mu.Lock()
+			if w.parked[key] == p {
+				delete(w.parked, key)
+			}
+			w.mu.Unlock()
+			return nil
+		}
+	}
 	if ctx.Value(cancellableKey) == nil {
 		return <-p.wake
 	}
